@@ -29,8 +29,16 @@ def canon_env(fn):
     walk(fn.get("body"), v)
     inl = {d: x["init"] for d, x in decls.items() if x.get("init") is not None}
     cnt = {}
+    nread = 0
     for x in order:
-        if x.get("init") is not None:
+        ini = strip(x["init"]) if x.get("init") is not None else None
+        while isinstance(ini, dict) and ini.get("k") == "Cast" and ini.get("e") is not None:
+            ini = strip(ini["e"])
+        if isinstance(ini, dict) and ini.get("k") == "Call" and ini.get("cname") in ("read", "read_big_endian"):
+            # the k-th value taken from the stream, with its width: renaming the local does not change it
+            nread += 1
+            env[x["d"]] = "read#%d<%s>" % (nread, (x.get("t") or "").replace("const ", ""))
+        elif x.get("init") is not None:
             env[x["d"]] = "=" + txt(x["init"], inl).replace(" ", "")[:80]
         else:
             t = (x.get("t") or "").replace("const ", "")
